@@ -2,7 +2,11 @@
 """tools/storeseed.py <Cnn-k> <caught_by text> : copy /tmp/seed-out/<Cnn-k> to seeded/<Cnn-k>/ with meta.json"""
 import sys, os, json, shutil, subprocess, re
 name, caught = sys.argv[1], sys.argv[2]
-src = '/tmp/seed-out/' + name
+# round-2 seeds are named Cnn-r2-k and live in /tmp/seed-out2/Cnn-k
+if '-r2-' in name:
+    src = '/tmp/seed-out2/' + name.replace('-r2-', '-')
+else:
+    src = '/tmp/seed-out/' + name
 dst = '/verif/seeded/' + name
 os.makedirs(dst, exist_ok=True)
 for f in ('patch.diff', 'demo.py', 'README.md'):
